@@ -720,17 +720,20 @@ fn set_cases<T: El>(out: &mut Out, r: &mut Rng, n: usize) {
         out.stat(&format!("{}-json", tag));
         if pool.len() < 40 { pool.push(a); } else { let i = r.below(40); pool[i] = a; }
 
-        // sorting with the hash order: non-decreasing keys; a BTreeSet keeps one per key
+        // sorting with Ord: the result is non-decreasing for Ord itself; a BTreeSet keeps one per distinct value
+        // (WHICH total order Ord is - today the order of the DefaultHasher keys - is not part of any property:
+        // harmless change sem2-2, DESIGN §12; two distinct values comparing Equal would be a 64-bit collision)
         if c % 50 == 49 {
             let mut v = pool.clone();
             v.sort();
-            if !v.windows(2).all(|w| dkey(&w[0]) <= dkey(&w[1])) {
-                out.v("hh-sort", &format!("{}: sort() by Ord does not order by the hash", tag));
+            if !v.windows(2).all(|w| w[0] <= w[1] && w[0].cmp(&w[1]) != Ordering::Greater) {
+                out.v("hh-sort", &format!("{}: sort() by Ord is not non-decreasing for Ord", tag));
             }
             let bs: BTreeSet<HashableHashSet<T>> = pool.iter().cloned().collect();
-            let keys: BTreeSet<u64> = pool.iter().map(dkey).collect();
-            if bs.len() != keys.len() {
-                out.v("hh-btreeset", &format!("{}: BTreeSet of {} sets keeps {} for {} distinct hashes", tag, pool.len(), bs.len(), keys.len()));
+            let mut distinct: Vec<&HashableHashSet<T>> = vec![];
+            for x in pool.iter() { if !distinct.iter().any(|y| *y == x) { distinct.push(x); } }
+            if bs.len() != distinct.len() {
+                out.v("hh-btreeset", &format!("{}: BTreeSet of {} sets keeps {} for {} distinct values", tag, pool.len(), bs.len(), distinct.len()));
             }
             out.stat(&format!("{}-sorted-pools", tag));
         }
